@@ -253,17 +253,15 @@ func (c *AttrCache) Put(path string, attrs *NFSAttrs) {
 // PutNegative adds a negative cache entry (file not found)
 func (c *AttrCache) PutNegative(path string) {
 	// Only store negative entries if enabled
-	c.mu.RLock()
-	enabled := c.enableNegative
-	negativeTTL := c.negativeTTL
-	c.mu.RUnlock()
-
-	if !enabled {
-		return
-	}
-
 	c.mu.Lock()
 	defer c.mu.Unlock()
+
+	// Check the switch under the write lock: a concurrent ConfigureNegativeCaching(false)
+	// must not be followed by the insertion of a negative entry it could no longer purge.
+	if !c.enableNegative {
+		return
+	}
+	negativeTTL := c.negativeTTL
 
 	// Check if entry already exists
 	existing, exists := c.cache[path]
